@@ -388,7 +388,8 @@ def find_check_cache(context):
             elif matched == FindResult.not_now:
                 extra.append(path)
 
-        regenerate = regenerate or results[0] != found or results[1] != extra
+        regenerate = ( regenerate or not _same_paths(results[0], found) or
+                       not _same_paths(results[1], extra) )
         all_seen_dirs.extend(seen_dirs)
 
     if not regenerate:
@@ -403,6 +404,13 @@ def find_check_cache(context):
             if _path.exists(i, context.env.base_dirs):
                 _path.touch(i, context.env.base_dirs)
         raise AbortConfigure()
+
+
+def _same_paths(old, new):
+    # `Path` equality ignores whether a path names a directory, but a file
+    # replaced by a directory of the same name (or vice versa) is a change.
+    return old == new and all(i.directory == j.directory
+                              for i, j in zip(old, new))
 
 
 def _refresh_depfile(env, regen_files, seen_dirs):
